@@ -191,6 +191,39 @@ Section HyperBatch.
       | _, _ => None
       end.
 
+    (* pruneToFind + interpretation (HyperTree.QueryMembership): the value stored for the key, if the walk ends in a
+       shortcut leaf of exactly that key, and the collected sibling hashes from the root downwards *)
+    Fixpoint bfind (h : nat) (pre : list bool) (k : key) (t : bt) {struct h} : option V * list (hpos * D) :=
+      let child (h' : nat) (pre' : list bool) (ct : bt) : option V * list (hpos * D) :=
+        match rslot ct with
+        | None => (None, [])                                     (* noOp: nothing below *)
+        | Some _ => if Nat.eqb (h' mod 4) 0 then bfind h' pre' k (load (pre', h')) else bfind h' pre' k ct
+        end in
+      match t with
+      | BNode (Some (SLeaf _)) l r =>
+          match rslot l, rslot r with
+          | Some (SKey k'), Some (SVal v) => ((if key_eqb k' k then Some v else None), [])
+          | _, _ => (None, [])
+          end
+      | BNode (Some _) l r =>
+          match h with
+          | O => (None, [])
+          | S h' =>
+              if bit_at pre k then
+                match discard l h' with
+                | Some dl => let '(v, p) := child h' (pre ++ [true]) r in (v, ((pre ++ [false], h'), dl) :: p)
+                | None => (None, [])
+                end
+              else
+                match discard r h' with
+                | Some dr => let '(v, p) := child h' (pre ++ [false]) l in (v, ((pre ++ [true], h'), dr) :: p)
+                | None => (None, [])
+                end
+          end
+      | _ => (None, [])
+      end.
+    Definition hb_find (k : key) : option V * list (hpos * D) := bfind nbits [] k (load ([], nbits)).
+
     (* HyperTree.Add / AddBulk: the root hash and the writes (cache.Put is immediate, the store mutations are
        returned to the caller, who persists them) *)
     Definition walk_insert (leaves : list (key * V)) : option (D * list wr) :=
